@@ -17,6 +17,11 @@ CHECKS = {
         technique="deterministic simulation with fault injection: CHECK CONDITION faults whose sense payloads sweep the response-code x key x ASC/ASCQ x length space, delivered through the simulated SG_IO/iSCSI bindings; independent SPC sense decoder as oracle",
         text="Every payload is delivered as the sense of an injected CHECK CONDITION on a live simulated device and the resulting error is constructed, str()ed, print()ed and its key/ASC/ASCQ compared with an independent SPC decoder. The thorough tier enumerates all 65536 ASC/ASCQ pairs x 16 keys x 4 formats (4.2M payloads) and adds seeded payloads of every length 1-252; quick enumerates all pairs for one key per format.",
         note="Search dimension is the fault payload, not a schedule (stated in DESIGN 2). T10 wording is demanded only for 41 well-known codes; sgio stub truncates sense to the 32 bytes the library requests."),
+    "C12": dict(
+        category="exploration", design_ref="DESIGN.md 5/C12",
+        technique="deterministic simulation: seeded block-command histories against an independently written sparse-disk target behind simulated SG_IO and iSCSI bindings; reference-model check after every command plus transport differential; status-fault configuration separate",
+        text="Seeded histories (3-40 commands, boundary-biased LBAs up to 2**64-2, five block sizes, unique payloads) are executed through the real facade, command classes and both device classes against a target that decodes CDBs from SBC; after every command the read data, the target's disk and the reference model must agree and the two transports must behave identically. Sampling, not proof.",
+        note="Trusts t10/targets.BlockLU and the stub bindings (iSCSI stub moves data according to the Task's direction/length, as on the wire). Transfer lengths above 2**16 blocks not explored."),
 }
 
 NOT_APPLICABLE = {
